@@ -242,6 +242,11 @@ inline void fill_leaf(Cell* c, int kind) {
             Label* l = mklabel("m", Vec2{1, -1}, TAG_C, 0.4, 1.5, false);
             set_rep(l->repetition, REP_EXPLICIT_X);
             c->label_array.append(l);
+            // near misses of the filter tags: same layer / other type and other layer / same type (a filter must compare the whole tag)
+            c->label_array.append(mklabel("n", Vec2{2.5, -1.5}, make_tag(3, 0)));
+            c->label_array.append(mklabel("o", Vec2{-1.5, -0.5}, make_tag(5, 1)));
+            c->polygon_array.append(mkpoly({{3, 3}, {4, 3}, {3.5, 4}}, make_tag(1, 7)));
+            c->polygon_array.append(mkpoly({{-2, 3}, {-1, 3}, {-1.5, 4}}, make_tag(6, 0)));
             FlexPath* fp = mkflex(TAG_A, TAG_B);
             set_rep(fp->repetition, REP_RECT);
             c->flexpath_array.append(fp);
